@@ -33,6 +33,7 @@ func runC10(c *Ctx) {
 	c04R4(c, p, "C10.R3.scratch-vs-incremental")
 	c02R2(c, p, "C10.R3.ep-convention")
 	c02R5(c, p, "C10.R3.uci-history")
+	boardCopyRule(c, p, "C10.R3.no-shared-history")
 }
 
 func isLenOfHashes(v ssa.Value) bool {
